@@ -5,6 +5,7 @@ package main
 import (
 	"errors"
 	"fmt"
+	"strings"
 	"time"
 
 	sentinel "github.com/alibaba/sentinel-golang/api"
@@ -54,7 +55,12 @@ func segments(r *rng.R, mk func() ev) [][]ev {
 func flowKit(m *rulesh.Mod[flow.Rule]) *kit[flow.Rule] {
 	kt := &kit[flow.Rule]{m: m, tag: "c14f"}
 	kt.subject = func(r *rng.R, res string) (*flow.Rule, string) {
-		switch r.Intn(5) {
+		switch r.Intn(7) {
+		case 5, 6:
+			// an associated-resource rule over a window of its own: it counts the admitted requests of the
+			// case's second resource (fed through the index keyed by the REFERENCED resource)
+			return &flow.Rule{Resource: res, Threshold: r.PickF(2, 3, 5), RelationStrategy: flow.AssociatedResource, RefResource: strings.TrimSuffix(res, "1") + "2",
+				StatIntervalInMs: uint32(r.PickI(20000, 3000, 700))}, "associated-private-window"
 		case 0:
 			return &flow.Rule{Resource: res, TokenCalculateStrategy: flow.Direct, ControlBehavior: flow.Throttling, Threshold: r.PickF(2, 5, 10),
 				StatIntervalInMs: uint32(r.PickI(0, 1000, 2000)), MaxQueueingTimeMs: uint32(r.PickI(0, 200, 500))}, "throttling"
@@ -84,11 +90,22 @@ func flowKit(m *rulesh.Mod[flow.Rule]) *kit[flow.Rule] {
 		same = append(same, &flow.Rule{Resource: res, Threshold: huge * 2, StatIntervalInMs: uint32(r.PickI(0, 3000, 700))})
 		same = append(same, &flow.Rule{Resource: res, TokenCalculateStrategy: flow.WarmUp, Threshold: huge, WarmUpPeriodSec: 10, WarmUpColdFactor: 3, StatIntervalInMs: u.StatIntervalInMs})
 		same = append(same, &flow.Rule{Resource: res, Threshold: -1}) // invalid: never in force
+		if u.RelationStrategy == flow.AssociatedResource {
+			// the referenced resource gets traffic in both runs: its own rules never reject
+			other = append(other, &flow.Rule{Resource: res2, Threshold: huge})
+			other = append(other, &flow.Rule{Resource: res2, Threshold: huge * 2, StatIntervalInMs: uint32(r.PickI(0, 3000, 20000))})
+			other = append(other, &flow.Rule{Resource: res2, Threshold: huge, RelationStrategy: flow.AssociatedResource, RefResource: res, StatIntervalInMs: 700})
+			return
+		}
 		other = append(other, &flow.Rule{Resource: res2, Threshold: r.PickF(0, 1, 100)})
 		other = append(other, &flow.Rule{Resource: res2, ControlBehavior: flow.Throttling, Threshold: 1})
 		return
 	}
+	kt.refLoads = func(u *flow.Rule) bool { return u.RelationStrategy == flow.AssociatedResource }
 	kt.traffic = func(r *rng.R, kind string) [][]ev {
+		if kind == "associated-private-window" {
+			return segments(r, func() ev { return ev{Dt: uint64(r.PickI(0, 0, 1, 10, 100, 100, 300, 600, 1100, 2500)), On2: r.Chance(3, 5)} })
+		}
 		return segments(r, func() ev { return ev{Dt: uint64(r.PickI(0, 0, 1, 10, 100, 100, 300, 600, 1100, 2500))} })
 	}
 	kt.drain = func() {}
@@ -97,7 +114,11 @@ func flowKit(m *rulesh.Mod[flow.Rule]) *kit[flow.Rule] {
 		return func(e ev) dec {
 			clk.AddMs(e.Dt)
 			clk.TakeSleeps()
-			en, b := sentinel.Entry(res)
+			target := res
+			if e.On2 {
+				target = strings.TrimSuffix(res, "1") + "2"
+			}
+			en, b := sentinel.Entry(target)
 			w := sumSleeps(clk.TakeSleeps())
 			if b != nil {
 				by := ""
